@@ -255,6 +255,9 @@ COLUMN_CONSTRAINT_PREFACES = [
     "DEFAULT",
     "COLLATE",
     "REFERENCES",
+    "NULL",
+    "GENERATED",
+    "AS",
 ]
 TABLE_CONSTRAINT_PREFACES = ["CONSTRAINT", "PRIMARY", "UNIQUE", "CHECK", "FOREIGN"]
 
